@@ -5,6 +5,8 @@
 (* nerr, out2), mouts (the printer model's texts)}.  Verdict: the re-parsed *)
 (* tree has the same shape (grouping nodes aside) and printing it again     *)
 (* reproduces the text byte for byte.  Drift: model text = real text.       *)
+(* The shape is compared with ProtectElse(tree): the brace pair that keeps  *)
+(* an `else` with its own `if` is the statement-level grouping node.        *)
 EXTENDS XjsGrammar, Json, IOUtils
 
 CONSTANT Shards
@@ -17,7 +19,7 @@ Next == t + Shards <= N /\ t' = t + Shards
 Spec == Init /\ [][Next]_t
 
 C03_Failures(r) ==
-  LET want == Strip(Unflat(r.tree)) IN
+  LET want == Strip(ProtectElse(Unflat(r.tree))) IN
   UNION {
     (IF r.rts[c].nerr = 0 THEN {} ELSE {"printed_code_does_not_parse"})
     \cup (IF r.rts[c].nerr > 0 \/ Strip(Unflat(r.rts[c].tree)) = want THEN {} ELSE {"reparsed_tree_has_another_shape"})
